@@ -226,6 +226,14 @@ def c01(rac, units, tier, seed):
         except TooBig:
             continue
         expect_value(rep, rac, q, exp)
+    # integer powers of small bases, negative / odd / even exponents, bases written as expressions so that the sign is part of the value
+    for b in [F(-3), F(-2), F(-1), F(-1, 2), F(0), F(1, 2), F(1), F(2), F(3), F(-3, 2)]:
+        for e in range(-5, 6):
+            bs = f"({b.numerator} / {b.denominator})" if b >= 0 else f"(0 - {-b.numerator} / {b.denominator})"
+            es = str(e) if e >= 0 else f"(0 - {-e})"
+            exp = "err" if (b == 0 and e < 0) else b ** e
+            expect_value(rep, rac, f"{bs} ^ {es}", exp)
+            expect_value(rep, rac, f"1 + 2 * {bs} ^ {es}", "err" if exp == "err" else 1 + 2 * exp)
     for q, exp in [("0 ^ -1", "err"), ("1 / 0", "err"), ("0 ^ 0", F(1)), ("1 / (2 - 2)", "err"), ("(1 - 1) ^ -2", "err"), ("200%", F(2)), ("50% * 50%", F(1, 4)), ("2 ^ 0.5", "err")]:
         expect_value(rep, rac, q, exp)
     return [rep]
@@ -277,6 +285,15 @@ def c06(rac, units, tier, seed):
     ]
     for q, exp in fam:
         expect_value(rep, rac, q, exp)
+    # every blank layout around the arguments of a call: blanks after `(`, before `,`, after `,`, before `)` (0, 1 or 2 blanks / a tab each)
+    blanks = ["", " ", "  ", "\t"]
+    for a1, a2, val in [("1.234", "2", F(123, 100)), ("(1 + 2) * 1.234", "1 + 1", F(37, 10)), ("12345.678", "0 - 2", F(12300)), ("2.5", "0", F(3))]:
+        for b1, b2, b3, b4 in itertools.product(blanks, repeat=4):
+            expect_value(rep, rac, f"round({b1}{a1}{b2},{b3}{a2}{b4})", val)
+    for b1, b2 in itertools.product(blanks, repeat=2):
+        expect_value(rep, rac, f"2 * floor({b1}7 / 2{b2}) + 1", F(7))
+        expect_value(rep, rac, f"({b1}1 + 2{b2}) * ({b2}3 + 4{b1})", F(21))
+        expect_value(rep, rac, f"(({b1}1 + 2{b2}){b1})", F(3))
     for q, exp_si, dim in [("1km + 500m to m", F(1500), "Meter"), ("1 + 2 to m", F(3), "Meter"), ("2 * 3 m to cm", F(600), "Meter"), ("1km + 2km * 3 to m", F(7000), "Meter"),
                            ("(1km + 500m) to m", F(1500), "Meter"), ("1km  +  500m   to   m", F(1500), "Meter")]:
         st = single_value(rac.query(q))
